@@ -2,13 +2,14 @@
 from .. import normcheck, normflow
 
 THEOREMS = ["C05_keeps", "C05_keeps_meta_needs", "C05_appends", "C05_completion_value", "C05_no_pooling",
-            "C05_no_use_no_completion", "C05_sort_perm", "C05_sort_stable", "C05_completion_twice_changes_nothing"]
+            "C05_no_use_no_completion", "C05_sort_perm", "C05_sort_stable", "C05_completion_twice_changes_nothing",
+            "C05_normalize_idempotent", "C05_read_components_are_normalized"]
 
 
 def run(tier, seed):
     return normcheck.run("C05", tier, seed, THEOREMS, normflow.oracle_c05,
                          "the set uses ambient heat or solar thermal energy",
                          "theorems over the model of Components::normalize for every component list and every iteration "
-                         "order of the system ids; idempotence of normalisation and the line-level 'never drops a line' part "
-                         "are established by the differential run only (normalize applied twice; parse of generated files in "
-                         "the C10/C18 checks)")
+                         "order of the system ids, including idempotence (C05_normalize_idempotent, exact in the rational model; the "
+                         "implementation's f32 recomputation is bounded by the differential run: normalize applied twice); the "
+                         "line-level 'never drops a line' part is the file-level theorem of C18 plus the parse of generated files")
